@@ -729,8 +729,8 @@ impl ScenarioExecutionHooks<InMemorySubstateDatabase> for Hooks {
 fn scenarios(args: &Args) {
     use radix_transaction_scenarios::scenarios::all_scenarios_iter;
     let checker_every = args.u64("checker_every", 10) as usize;
-    // selection: `only=a,b` / `skip=a,b` by logical name; `every_version=1` re-runs each selected
-    // scenario at every protocol version at which it is valid (otherwise only when first valid)
+    // selection: `only=a,b` / `skip=a,b` by logical name; `every_version=1` runs each selected scenario at
+    // every protocol version at which it is valid, on a fresh ledger per version (otherwise once, when first valid)
     let only = args.kv.get("only").map(|s| s.split(',').map(|x| x.to_string()).collect::<BTreeSet<_>>());
     let skip: BTreeSet<String> = args.kv.get("skip").map(|s| s.split(',').map(|x| x.to_string()).collect()).unwrap_or_default();
     let every_version = args.u64("every_version", 0) != 0;
@@ -739,30 +739,50 @@ fn scenarios(args: &Args) {
         .filter(|n| only.as_ref().map(|o| o.contains(n)).unwrap_or(true) && !skip.contains(n))
         .collect();
     let mut hooks = Hooks { log: GraphLogger::new(), checker_every, n: 0, only: None, active: false, scenarios: vec![], t0: std::time::Instant::now() };
-    let mut exec = TransactionScenarioExecutor::new(InMemorySubstateDatabase::standard(), NetworkDefinition::simulator());
-    // one executor pass per protocol version over the same database, so that the selection can follow
-    // the "first valid at this version" rule of the repository's own scenario runs
-    let mut first = true;
-    for v in ProtocolVersion::all_from(ProtocolVersion::Babylon) {
-        let at_v: BTreeSet<String> = all_scenarios_iter()
-            .filter(|c| {
-                let md = c.metadata();
-                names.contains(md.logical_name)
-                    && if every_version { v >= md.protocol_min_requirement && v <= md.protocol_max_requirement } else { md.protocol_min_requirement == v }
-            })
-            .map(|c| c.metadata().logical_name.to_string())
-            .collect();
-        let from_bootstrap = first;
-        first = false;
-        exec.execute_protocol_updates_and_scenarios(
-            |b| if from_bootstrap { b.from_bootstrap_to(v) } else { b.from_current_to(v) },
-            ScenarioTrigger::AtStartOfProtocolVersions(btreeset!(v)),
-            ScenarioFilter::SpecificScenariosByName(at_v),
-            &mut hooks,
-            &mut (),
-            &VmModules::default(),
-        )
-        .expect("harness: scenarios must execute");
+    if !every_version {
+        // one ledger, genesis -> latest; one executor pass per protocol version over the same database, so
+        // that the selection can follow the "first valid at this version" rule of the repository's own runs
+        let mut exec = TransactionScenarioExecutor::new(InMemorySubstateDatabase::standard(), NetworkDefinition::simulator());
+        let mut first = true;
+        for v in ProtocolVersion::all_from(ProtocolVersion::Babylon) {
+            let at_v: BTreeSet<String> = all_scenarios_iter()
+                .filter(|c| names.contains(c.metadata().logical_name) && c.metadata().protocol_min_requirement == v)
+                .map(|c| c.metadata().logical_name.to_string())
+                .collect();
+            let from_bootstrap = first;
+            first = false;
+            exec.execute_protocol_updates_and_scenarios(
+                |b| if from_bootstrap { b.from_bootstrap_to(v) } else { b.from_current_to(v) },
+                ScenarioTrigger::AtStartOfProtocolVersions(btreeset!(v)),
+                ScenarioFilter::SpecificScenariosByName(at_v),
+                &mut hooks,
+                &mut (),
+                &VmModules::default(),
+            )
+            .expect("harness: scenarios must execute");
+        }
+    } else {
+        // one FRESH ledger per protocol version v (genesis -> v), running every selected scenario that is
+        // valid at v: the same scenario is then executed by every protocol version's engine
+        for v in ProtocolVersion::all_from(ProtocolVersion::Babylon) {
+            let at_v: BTreeSet<String> = all_scenarios_iter()
+                .filter(|c| {
+                    let md = c.metadata();
+                    names.contains(md.logical_name) && v >= md.protocol_min_requirement && v <= md.protocol_max_requirement
+                })
+                .map(|c| c.metadata().logical_name.to_string())
+                .collect();
+            let mut exec = TransactionScenarioExecutor::new(InMemorySubstateDatabase::standard(), NetworkDefinition::simulator());
+            exec.execute_protocol_updates_and_scenarios(
+                |b| b.from_bootstrap_to(v),
+                ScenarioTrigger::AtStartOfProtocolVersions(btreeset!(v)),
+                ScenarioFilter::SpecificScenariosByName(at_v),
+                &mut hooks,
+                &mut (),
+                &VmModules::default(),
+            )
+            .expect("harness: scenarios must execute");
+        }
     }
     let Hooks { mut log, scenarios, .. } = hooks;
     log.out.emit(&json!({"a": "summary", "scenarios": scenarios, "commits": log.commits, "max_nodes": log.max_nodes}));
